@@ -62,10 +62,12 @@ def secPost : List Stmt := [
 def secAccept : List Stmt := [
   .act (.setResolve false),
   .ite .reportNumeric
-    (.ite .onGrid (block [
+    (block [
+      .act .readReportStart,
+      .ite .onGrid (block [
         .act .save,
         .ite .alreadySolved (.ite .nonIntegral (.raise .subSecond) (.raise .alreadySolved)) .skip,
-        .act .appendTime]) .skip)
+        .act .appendTime]) .skip])
     (.ite .reportAll (block [
         .act .save,
         .ite .alreadySolved (.raise .alreadySolved) .skip,
@@ -117,10 +119,11 @@ theorem exec_secAccept (s : St W RN RL) (hs : s.halt = none) (ok ch wt : Bool) :
   · by_cases hal : s.times.getLast? = some s.simTime <;>
       by_cases hp : cfg.duration < s.simTime + cfg.hyd - s.simTime % cfg.hyd <;>
       simp [fin, secAccept, block, execS, doAct, evalCond, haltOf, acceptPhase, reportNow, hrep, hal, hp, hs]
-  · by_cases hg : s.simTime % cfg.report = 0 <;>
+  · by_cases hge : cfg.reportStart ≤ s.simTime <;>
+      by_cases hg : (s.simTime - cfg.reportStart) % cfg.report = 0 <;>
       by_cases hal : s.times.getLast? = some s.simTime <;>
       by_cases hp : cfg.duration < s.simTime + cfg.hyd - s.simTime % cfg.hyd <;>
-      simp [fin, secAccept, block, execS, doAct, evalCond, haltOf, acceptPhase, reportNow, hrep, hg, hal, hp, hs]
+      simp [fin, secAccept, block, execS, doAct, evalCond, haltOf, acceptPhase, reportNow, hrep, hge, hg, hal, hp, hs]
 
 theorem presolvePhase_halt (s : St W RN RL) : (presolvePhase wd s).halt = s.halt := by
   cases hr : s.resolve with
